@@ -98,6 +98,12 @@ CLAIMS = {
             'unsat = holds for the finite table; the index is checked with symbolic key suffixes: an entry is selected exactly by its own keys.',
             'Degenerate use of the solver (query engine over a concrete table), flagged in DESIGN.md. Six listed known findings are data defects of the shipped XML maps.',
             'DESIGN.md §5 C16'),
+    'C20': ('other', 'bounded symbolic execution (CrossHair+z3) of scripts.x12norm.main with the operating system stubbed, over symbolic option / delimiter / line-break / count-token choices',
+            'The whole command runs against an in-memory file system: for every option combination, delimiter triple (newline as terminator included), line-break convention and every '
+            'right/wrong combination of IEA01/GE01/SE01/HL01 the destination must receive exactly the input segments (counts repaired only under --fixcounting), a second run must be the identity, '
+            'and the repaired output must read back without count errors.',
+            'Trusted: CrossHair, z3, the OS stubs (in-memory open/glob/tempfile/stdout). Choice enumeration under the tracer; 5-character read buffer.',
+            'DESIGN.md §5 C20'),
 }
 
 NOT_YET = 'check not built yet in this round (planned: see DESIGN.md §5)'
